@@ -40,8 +40,37 @@ TRUSTED = ["the cache contents are read through get_resource_system_data_from_ca
            "by a call counter"]
 
 KINDS = 4
-NAMES = ["a", "b", "c"]
-VERSIONS = ["1", "2", "3"]
+# names and versions are related by prefix / suffix / substring (numeric strings of different lengths, as real
+# resourceVersions are), so that an implementation comparing them by containment or prefix is told apart from equality
+NAMES = ["ab", "abc", "bc"]
+ALL_VERSIONS = ["7", "17", "170", "99", "990", "1", "10"]
+VERSIONS = ["17", "170", "7"]          # default pool; random histories draw their own 3-element pool
+
+
+def fresh(s):
+    """an equal but DISTINCT str object (for len >= 2; CPython shares 0/1-character strings)"""
+    return (s + "\0")[:-1] if isinstance(s, str) else s
+
+
+def fresh_json(v):
+    """a structurally equal value sharing no str/list/dict object with `v`: the controller parses the metadata and
+    spec of every event from its own JSON document"""
+    import json
+    return json.loads(json.dumps(v))
+
+
+def universe(ops):
+    """every (kind-independent) name a history mentions, plus the default names"""
+    names = list(NAMES)
+    for op in ops:
+        n = None
+        if op[0] in ("offer", "delres"):
+            n = op[2].get("name")
+        elif op[0] in ("delete", "lookup", "lookupsys"):
+            n = op[2]
+        if isinstance(n, str) and n and n not in names:
+            names.append(n)
+    return names
 ERR_MODES = ["permfail", "retry", "skip", "depskip"]
 
 
@@ -101,7 +130,8 @@ class _RegClock:
 
 
 class Runner:
-    def __init__(self):
+    def __init__(self, names=None):
+        self.names = list(names or NAMES)
         from koreo import cache, registry, result
         self.cache, self.result, self.registry = cache, result, registry
         cache._reset_cache()
@@ -146,7 +176,7 @@ class Runner:
                 self.made[id(obj)] = ("ok", n)
                 self.keep.append(obj)
                 if deps is not None:       # (dependency streams only) declare watched resources
-                    return obj, [self.registry.Resource(resource_type=KCLS[c], name=nm) for c, nm in deps]
+                    return obj, [self.registry.Resource(resource_type=KCLS[c], name=fresh(nm)) for c, nm in deps]
                 return obj, (None if mode == "ok" else [])
             obj = {"permfail": R.PermFail(message=str(n)), "retry": R.Retry(delay=5, message=str(n)),
                    "skip": R.Skip(message=str(n)), "depskip": R.DepSkip(message=str(n))}.get(mode) \
@@ -172,9 +202,9 @@ class Runner:
         match (a correspondence mismatch), never a crash."""
         items = []
         for cls in range(KINDS):
-            for name in NAMES:
+            for name in self.names:
                 try:
-                    e = self.cache.get_resource_system_data_from_cache(KCLS[cls], name)
+                    e = self.cache.get_resource_system_data_from_cache(KCLS[cls], fresh(name))
                     if e is None:
                         continue
                     d = self.entry(e)
@@ -206,28 +236,28 @@ class Runner:
             if k == "offer":
                 _, cls, meta, spec, sys = op
                 self.current_offer = {"spec": copy.deepcopy(spec), "name": meta.get("name")}
-                spec_arg = copy.deepcopy(spec)
+                spec_arg = fresh_json(spec)
                 try:
                     r = await c.prepare_and_cache(resource_class=KCLS[cls], preparer=self.preparers[cls],
-                                                  metadata=copy.deepcopy(meta), spec=spec_arg,
-                                                  _system_data=copy.deepcopy(sys))
+                                                  metadata=fresh_json(meta), spec=spec_arg,
+                                                  _system_data=fresh_json(sys))
                 finally:
                     self.current_offer = None
                 res = ["value"] + self.ident(r) if r is not None else ["none"]
             elif k == "delete":
                 _, cls, name, ver = op
-                r = await (c.delete_from_cache(KCLS[cls], name) if ver is None
-                           else c.delete_from_cache(KCLS[cls], name, version=ver))
+                r = await (c.delete_from_cache(KCLS[cls], fresh(name)) if ver is None
+                           else c.delete_from_cache(KCLS[cls], fresh(name), version=fresh(ver)))
                 res = ["none"] if r is None else ["other"]
             elif k == "delres":
                 _, cls, meta = op
-                r = await c.delete_resource_from_cache(KCLS[cls], copy.deepcopy(meta))
+                r = await c.delete_resource_from_cache(KCLS[cls], fresh_json(meta))
                 res = ["none"] if r is None else ["other"]
             elif k == "lookup":
-                r = c.get_resource_from_cache(KCLS[op[1]], op[2])
+                r = c.get_resource_from_cache(KCLS[op[1]], fresh(op[2]))
                 res = ["value"] + self.ident(r) if r is not None else ["none"]
             elif k == "lookupsys":
-                r = c.get_resource_system_data_from_cache(KCLS[op[1]], op[2])
+                r = c.get_resource_system_data_from_cache(KCLS[op[1]], fresh(op[2]))
                 res = ["entry", self.entry(r)] if r is not None else ["none"]
             elif k == "yield":               # (dependency streams only) let background re-preparers run
                 for _ in range(op[1]):
@@ -248,7 +278,7 @@ def run_ops(ops, deps=False):
     """-> (trace [(op, result, obs)], runner-level contract violation or None, extra lookups per step, number of
     re-prepare tasks at the end, the specs the preparer invocations were given)"""
     async def go():
-        r = Runner()
+        r = Runner(universe(ops))
         try:
             out, looks = [], []
             for op in ops:
@@ -257,9 +287,9 @@ def run_ops(ops, deps=False):
                 # what the public lookups say about every key of the universe, after this op
                 lk = {}
                 for cls in range(KINDS):
-                    for name in NAMES:
-                        v = r.cache.get_resource_from_cache(KCLS[cls], name)
-                        sd = r.cache.get_resource_system_data_from_cache(KCLS[cls], name)
+                    for name in r.names:
+                        v = r.cache.get_resource_from_cache(KCLS[cls], fresh(name))
+                        sd = r.cache.get_resource_system_data_from_cache(KCLS[cls], fresh(name))
                         lk[(cls, name)] = (r.ident(v), None if sd is None else sd.resource_version)
                 looks.append(lk)
             from koreo import cache as _c
@@ -481,19 +511,19 @@ def meta(name, ver, **extra):
 
 def alphabet():
     return [
-        ["offer", 0, meta("a", "1"), {"mode": "ok"}, None],
-        ["offer", 0, meta("a", "2"), {"mode": "permfail"}, {"owner": "x"}],
-        ["offer", 0, meta("a", "1"), {"mode": "retry", "n": 1}, None],
-        ["offer", 0, meta("b", "1"), {"mode": "ok_list"}, None],
-        ["offer", 1, meta("a", "2"), {"mode": "raise"}, None],
-        ["delete", 0, "a", None],
-        ["delete", 0, "a", "1"],
-        ["delete", 0, "a", "2"],
-        ["delres", 0, meta("a", "1")],
-        ["lookupsys", 0, "a"],
-        ["offer", 2, meta("a", "1"), {"mode": "ok"}, None],         # kinds 2 and 3: distinct classes, same class name
-        ["offer", 3, meta("a", "1"), {"mode": "ok"}, None],
-        ["delete", 3, "a", None],
+        ["offer", 0, meta("ab", "17"), {"mode": "ok"}, None],
+        ["offer", 0, meta("ab", "170"), {"mode": "permfail"}, {"owner": "x"}],
+        ["offer", 0, meta("ab", "17"), {"mode": "retry", "n": 1}, None],
+        ["offer", 0, meta("abc", "17"), {"mode": "ok_list"}, None],
+        ["offer", 1, meta("ab", "170"), {"mode": "raise"}, None],
+        ["delete", 0, "ab", None],
+        ["delete", 0, "ab", "17"],
+        ["delete", 0, "ab", "170"],
+        ["delres", 0, meta("ab", "17")],
+        ["lookupsys", 0, "ab"],
+        ["offer", 2, meta("ab", "17"), {"mode": "ok"}, None],         # kinds 2 and 3: distinct classes, same class name
+        ["offer", 3, meta("ab", "17"), {"mode": "ok"}, None],
+        ["delete", 3, "ab", None],
     ]
 
 
@@ -532,6 +562,7 @@ def rand_spec(rng):
 
 def rand_history(rng, length, nkeys):
     names = NAMES[:nkeys]
+    vers = rng.sample(ALL_VERSIONS, 3)      # a small pool, so versions repeat and go back and forth
     ops = []
     offered = {}                       # key -> versions offered so far (generator-side, for targeted deletes)
     for _ in range(length):
@@ -542,7 +573,7 @@ def rand_history(rng, length, nkeys):
             ops.append(copy.deepcopy(rng.choice(ops[-3:])))      # repeat a recent operation verbatim
             continue
         if x < 0.55:
-            ver = rng.choice(VERSIONS)
+            ver = rng.choice(vers)
             sys = rng.choice([None, None, {"owner": name}, {}])
             ops.append(["offer", cls, rand_meta(rng, name, ver), rand_spec(rng), sys])
             offered.setdefault((cls, name), []).append(ver)
@@ -556,12 +587,12 @@ def rand_history(rng, length, nkeys):
             elif y < 0.85 and len(seen) > 1:
                 ver = rng.choice(seen[:-1])                      # most likely a stale version
             elif y < 0.95:
-                ver = rng.choice(VERSIONS + ["9"])
+                ver = rng.choice(vers + ["9", "70"])
             else:
                 ver = ""
             ops.append(["delete", cls, name, ver])
         elif x < 0.80:
-            ops.append(["delres", cls, rand_meta(rng, name, rng.choice(VERSIONS))])
+            ops.append(["delres", cls, rand_meta(rng, name, rng.choice(vers))])
         elif x < 0.92:
             ops.append(["lookup", cls, name])
         else:
@@ -637,6 +668,7 @@ def rand_deps_history(rng, length):
     """offers that declare dependencies (incl. ones closing a cycle between two cached resources), deletes,
     lookups, and `yield`s that let the background re-preparers run; every offered spec is unique (tag)"""
     names = NAMES[:rng.choice([2, 3])]
+    vers = rng.sample(ALL_VERSIONS, 3)
     ops, tag = [], 0
     for _ in range(length):
         name = rng.choice(names)
@@ -654,9 +686,9 @@ def rand_deps_history(rng, length):
                 spec["deps"] = [[0, d] for d in deps]
             elif y < 0.85:
                 spec["deps"] = []
-            ops.append(["offer", 0, meta(name, rng.choice(VERSIONS)), spec, None])
+            ops.append(["offer", 0, meta(name, rng.choice(vers)), spec, None])
         elif x < 0.68:
-            ops.append(["delete", 0, name, rng.choice([None, None] + VERSIONS)])
+            ops.append(["delete", 0, name, rng.choice([None, None] + vers)])
         elif x < 0.80:
             ops.append(["lookup", 0, name])
         else:
